@@ -1,6 +1,6 @@
 (** C01/C03: whole-memory view of the transposes.  A memory [mems] gives, for every process, one flat array
     (all of it: the block, the padding and whatever lies beyond).  [fr E m1 m2]: same lengths and identical
-    contents at every address >= E.  Generic lift of the frame of a single step to the two multi-step
+    contents of process r at every address >= E r.  Generic lift of the frame of a single step to the two multi-step
     redirects (_transposeRedirect: ping-pong between source and dest, final dest[:] = source on even
     length; _transposeRedirect_source_intact: first step chosen by parity, source never an output). *)
 From Coq Require Import List Arith Lia PeanoNat Bool.
@@ -20,8 +20,8 @@ Definition mems := list (list V).
 Definition cell (m : mems) (r A : nat) : V := nth A (nth r m []) dflt.
 Definition same_len (m1 m2 : mems) : Prop :=
   length m1 = length m2 /\ forall r, length (nth r m1 []) = length (nth r m2 []).
-Definition fr (E : nat) (m1 m2 : mems) : Prop :=
-  same_len m1 m2 /\ forall r A, E <= A -> cell m1 r A = cell m2 r A.
+Definition fr (E : nat -> nat) (m1 m2 : mems) : Prop :=
+  same_len m1 m2 /\ forall r A, E r <= A -> cell m1 r A = cell m2 r A.
 
 Lemma same_len_refl m : same_len m m. Proof. split; reflexivity. Qed.
 Lemma same_len_sym m1 m2 : same_len m1 m2 -> same_len m2 m1.
@@ -33,8 +33,8 @@ Lemma fr_sym E m1 m2 : fr E m1 m2 -> fr E m2 m1.
 Proof. intros [H1 H2]. split; [apply same_len_sym, H1|intros; symmetry; apply H2; assumption]. Qed.
 Lemma fr_trans E m1 m2 m3 : fr E m1 m2 -> fr E m2 m3 -> fr E m1 m3.
 Proof. intros [H1 H2] [H3 H4]. split; [eapply same_len_trans; eassumption|intros; rewrite H2 by assumption; apply H4; assumption]. Qed.
-Lemma fr_mono E E' m1 m2 : E <= E' -> fr E m1 m2 -> fr E' m1 m2.
-Proof. intros H [H1 H2]. split; [exact H1|intros; apply H2; lia]. Qed.
+Lemma fr_mono E E' m1 m2 : (forall r, E r <= E' r) -> fr E m1 m2 -> fr E' m1 m2.
+Proof. intros H [H1 H2]. split; [exact H1|intros r A HA; apply H2; specialize (H r); lia]. Qed.
 
 (** a new memory of the same lengths whose cell (r, A) is [f r A] *)
 Definition mat (f : nat -> nat -> V) (old : mems) : mems :=
@@ -69,7 +69,7 @@ Proof. intros H. unfold cell. apply nth_overflow, H. Qed.
 
 (** [mat f old] agrees with [old] wherever [f] reproduces the old cell *)
 Lemma mat_fr E f old :
-  (forall r A, r < length old -> A < length (nth r old []) -> E <= A -> f r A = cell old r A) ->
+  (forall r A, r < length old -> A < length (nth r old []) -> E r <= A -> f r A = cell old r A) ->
   fr E (mat f old) old.
 Proof.
   intros H. split; [apply mat_same_len|]. intros r A HE.
@@ -87,7 +87,7 @@ Variable L : Type.
 Variable plain : L -> L -> mems -> mems -> mems * mems.            (* from to |-> (from', to') *)
 Variable intact : L -> L -> mems -> mems -> mems -> mems * mems.   (* from to scratch |-> (to', scratch'); from is not an output *)
 Variable ok : L -> L -> bool.
-Variable E : nat.
+Variable E : nat -> nat.
 (** [Wm]: the memory is large enough (a property of the lengths only) *)
 Variable Wm : mems -> Prop.
 Hypothesis Wm_len : forall m1 m2, same_len m1 m2 -> Wm m1 -> Wm m2.
@@ -234,7 +234,7 @@ Variable L : Type.
 Variable plain : L -> L -> mems -> mems -> mems * mems.
 Variable intact : L -> L -> mems -> mems -> mems -> mems * mems.
 Variable ok : L -> L -> bool.
-Variable E : nat.
+Variable E : nat -> nat.
 Variable Wm : mems -> Prop.
 Hypothesis Wm_len : forall m1 m2, same_len V m1 m2 -> Wm m1 -> Wm m2.
 
